@@ -251,7 +251,8 @@ def gen_reloc_file(rng, type_tables):
     tab, offs = elfgen.strtab([n.encode() for n in names])
     syms = [elfgen.sym_pack(E, is64, 0, 0, 0, 0, 0, 0),
             elfgen.sym_pack(E, is64, 0, 0, 0, 3, 0, 1),                       # section symbol of .text
-            elfgen.sym_pack(E, is64, 0, 0, 0, 3, 0, 2)]                       # section symbol of .data
+            elfgen.sym_pack(E, is64, 0, 0, 0, 3, 0, 2),                       # section symbol of .data
+            elfgen.sym_pack(E, is64, 0, 0x1c, 0, 0, 0, 2)]                    # anonymous local label in .data
     for n in names[1:]:
         syms.append(elfgen.sym_pack(E, is64, offs[n.encode()], rng.choice([0, 0x10, 0x1234]), 4, 0x12 if n != 'table' else 0x11,
                                     0, rng.choice([0, 1, 2])))
@@ -284,7 +285,7 @@ def gen_reloc_file(rng, type_tables):
         r2, s2 = recs(rng.choice([1, 3]))
         secs.append(elfgen.Sec(pre + '.data', 4 if rela else 9, flags=0x40, data=r2, link='.symtab', info='.data', entsize=relsz, align=8))
         shape.append(s2)
-    secs += [elfgen.Sec('.symtab', 2, data=b''.join(syms), link='.strtab', info=3, entsize=24 if is64 else 16, align=8),
+    secs += [elfgen.Sec('.symtab', 2, data=b''.join(syms), link='.strtab', info=4, entsize=24 if is64 else 16, align=8),
              elfgen.Sec('.strtab', 3, data=tab)]
     img, info = elfgen.build(cls=cls, le=le, machine=machine, etype=1, sections=secs)
     return img, dict(machine=machine, cls=cls, rela=rela, relocs=[x[:6] for x in shape])
